@@ -333,8 +333,17 @@ func (p *printer) declare(roots []*Expr) {
 			}
 		}
 	}
+	var side []string
 	for _, e := range order {
 		if e.Op == OConst || e.Op == OVar {
+			continue
+		}
+		if e.Op == OFPToBits {
+			// standard-conforming encoding of the IEEE bit pattern: a fresh vector whose to_fp is the value
+			name := fmt.Sprintf("tb!%d", e.ID)
+			fmt.Fprintf(p.sb, "(declare-const %s (_ BitVec 64))\n", name)
+			side = append(side, fmt.Sprintf("(assert (= ((_ to_fp 11 53) %s) %s))\n", name, p.ref(e.Args[0])))
+			p.named[e.ID] = name
 			continue
 		}
 		if p.refs[e.ID] > 1 || len(e.Args) > 0 && e.Size1() > 0 {
@@ -344,6 +353,9 @@ func (p *printer) declare(roots []*Expr) {
 			fmt.Fprintf(p.sb, "(define-fun %s () %s %s)\n", name, e.Sort, body)
 			p.named[e.ID] = name
 		}
+	}
+	for _, a := range side {
+		p.sb.WriteString(a)
 	}
 }
 
